@@ -24,6 +24,10 @@ type c14Run struct {
 	Args   []string   `json:"args"`
 	Config []ConfigKV `json:"config,omitempty"` // sizer.* entries
 	Scope  string     `json:"scope,omitempty"`  // local | global | command
+	// Decoy: other values for the same keys, written where git gives them
+	// lower precedence than Config: every lower scope, and an earlier line of
+	// the same file. git's rule is "last one wins".
+	Decoy []ConfigKV `json:"decoy,omitempty"`
 }
 
 func applySizerConfig(w *World, r c14Run) *World {
@@ -35,6 +39,23 @@ func applySizerConfig(w *World, r c14Run) *World {
 	for _, kv := range r.Config {
 		sec, key := "sizer", kv.Key
 		fmt.Fprintf(&b, "[%s]\n\t%s = %s\n", sec, key, configValue(kv.Value))
+	}
+	if len(r.Decoy) > 0 {
+		var d strings.Builder
+		for _, kv := range r.Decoy {
+			fmt.Fprintf(&d, "[sizer]\n\t%s = %s\n", kv.Key, configValue(kv.Value))
+		}
+		nw.Config.System += d.String()
+		switch r.Scope {
+		case "global":
+			nw.Config.Global += d.String() // an earlier line of the same file
+		case "command":
+			nw.Config.Global += d.String()
+			nw.Config.Local += d.String()
+		default:
+			nw.Config.Global += d.String()
+			nw.Config.Local += d.String() // an earlier line of the same file
+		}
 	}
 	switch r.Scope {
 	case "global":
@@ -102,6 +123,9 @@ func judgeC14(c *Ctx, sc *Scenario) *Violation {
 	}
 	c.Stats.Nontrivial[sc.Hash()] = true
 	c.Stats.Probe("relation-" + p.Relation)
+	if len(p.A.Decoy) > 0 {
+		c.Stats.Probe("with-a-decoy-value-in-lower-precedence-scopes")
+	}
 	return nil
 }
 
@@ -145,7 +169,8 @@ func checkC14(c *Ctx, rt *rapid.T) {
 	var p c14Params
 	format := g.PickStr([]string{"table", "json1", "json2"}, "format")
 	base := FormatArgs(g, format)
-	switch g.Pick(9, "relation") {
+	rel := g.Pick(9, "relation")
+	switch rel {
 	case 0: // config == option: threshold
 		t := g.PickStr(thresholds, "thr")
 		p = c14Params{Relation: "config-equals-option:threshold", A: c14Run{Config: []ConfigKV{{keyCase("threshold"), t}}, Scope: scope}, B: c14Run{Args: []string{"--threshold=" + t}}}
@@ -164,7 +189,29 @@ func checkC14(c *Ctx, rt *rapid.T) {
 			opt = "--progress"
 		}
 		p = c14Params{Relation: "config-equals-option:progress", Progress: true, A: c14Run{Config: []ConfigKV{{keyCase("progress"), bv}}, Scope: scope}, B: c14Run{Args: []string{opt}}}
-	case 4: // option given => config (valid or invalid) has no effect
+	}
+	if strings.HasPrefix(p.Relation, "config-equals-option:") && g.Bool("decoy") {
+		// the same key with another value where it must lose
+		kv := p.A.Config[0]
+		var other string
+		switch {
+		case strings.HasSuffix(p.Relation, ":threshold"):
+			other = g.PickStr([]string{"0", "1", "30", "7.5", "1e9"}, "decoythr")
+		case strings.HasSuffix(p.Relation, ":names"):
+			other = g.PickStr([]string{"none", "hash", "full"}, "decoynames")
+		case strings.HasSuffix(p.Relation, ":jsonVersion"):
+			other = map[string]string{"1": "2", "2": "1"}[kv.Value]
+		default:
+			other = map[bool]string{true: "false", false: "true"}[kv.Value == "true" || kv.Value == "yes" || kv.Value == "on" || kv.Value == "1"]
+		}
+		if other != "" && other != kv.Value {
+			p.A.Decoy = []ConfigKV{{kv.Key, other}}
+		}
+	}
+	switch {
+	case rel < 4:
+		// done above
+	case rel == 4: // option given => config (valid or invalid) has no effect
 		fam := g.PickStr([]string{"threshold", "names", "jsonVersion", "progress"}, "family")
 		var optArgs []string
 		var vals []string
@@ -188,7 +235,7 @@ func checkC14(c *Ctx, rt *rapid.T) {
 		p.Relation = "option-overrides-config:" + fam
 		p.A = c14Run{Args: optArgs, Config: []ConfigKV{{keyCase(fam), val}}, Scope: scope}
 		p.B = c14Run{Args: optArgs}
-	case 5: // last of the threshold family wins
+	case rel == 5: // last of the threshold family wins
 		n := g.Int(2, 5, "nfam")
 		var seq []string
 		var last string
@@ -214,14 +261,14 @@ func checkC14(c *Ctx, rt *rapid.T) {
 			}
 		}
 		p = c14Params{Relation: "last-of-family-wins", A: c14Run{Args: seq}, B: c14Run{Args: []string{"--threshold=" + last}}}
-	case 6: // equivalent spellings: thresholds
+	case rel == 6: // equivalent spellings: thresholds
 		pairs := [][2][]string{
 			{{"--verbose"}, {"--threshold=0"}}, {{"-v"}, {"--threshold=0"}}, {{"--critical"}, {"--threshold=30"}}, {{"--no-verbose"}, {"--threshold=1"}},
 			{{"--verbose"}, {"-v"}}, {{}, {"--threshold=1"}}, {{}, {"--names=full"}},
 		}
 		pr := pairs[g.Pick(len(pairs), "pair")]
 		p = c14Params{Relation: "equivalent-spellings", A: c14Run{Args: pr[0]}, B: c14Run{Args: pr[1]}}
-	case 7: // -j == --json ; json-version default
+	case rel == 7: // -j == --json ; json-version default
 		base = nil
 		pairs := [][2][]string{
 			{{"-j"}, {"--json"}}, {{"--json"}, {"--json", "--json-version=1"}}, {{"-j", "--json-version=2"}, {"--json", "--json-version", "2"}},
